@@ -582,7 +582,7 @@ func (s *SymDense) SliceSym(i, k int) Symmetric {
 
 func (s *SymDense) sliceSym(i, k int) *SymDense {
 	sz := s.cap
-	if i < 0 || sz < i || k < i || sz < k {
+	if i < 0 || sz < i || k <= i || sz < k {
 		panic(ErrIndexOutOfRange)
 	}
 	v := *s
